@@ -111,6 +111,43 @@ type c06wRun struct {
 	lastPub map[int]network.Connectedness
 	opened  []int // streams the remote opened so far, per conn
 	cov     map[string]int64
+	chosen  []int // mode A: the driver's choices so far (for the watchdog)
+}
+
+// Watchdog for mode A.  synctest.Wait() never returns when a bubble goroutine is blocked NON-durably - e.g. a second
+// Conn.Close waiting on closeOnce while the first sits on a transport-Close gate, which the unchanged swarm never does
+// (doClose unregisters the conn first) but a changed one may.  No run finishing for minutes = the current run is written
+// as a stuck case (label 16, clause 6) together with everything recorded so far, instead of losing it all at the go test timeout.
+var (
+	c06wProgress atomic.Int64
+	c06wCur      atomic.Pointer[c06wRun]
+)
+
+func c06wWatchdog(out *verifh.Out) (stop func()) {
+	done := make(chan struct{})
+	go func() {
+		last, idle := int64(-1), 0
+		for {
+			select {
+			case <-done:
+				return
+			case <-time.After(5 * time.Second):
+			}
+			if p := c06wProgress.Load(); p != last {
+				last, idle = p, 0
+				continue
+			}
+			idle++
+			if r := c06wCur.Load(); idle >= 48 && r != nil { // 4 minutes without a single run finishing
+				r.mu.Lock()
+				chosen := append([]int{}, r.chosen...)
+				r.mu.Unlock()
+				fmt.Println("C06: no progress inside the synctest bubble (a goroutine is blocked non-durably)")
+				r.finish(out, 0, chosen, true)
+			}
+		}
+	}()
+	return func() { close(done) }
 }
 
 func (r *c06wRun) cover(name string) {
@@ -579,6 +616,8 @@ func (r *c06wRun) finish(out *verifh.Out, mode int64, chosen []int, stuck bool) 
 func c06wExecute(t *testing.T, out *verifh.Out, cfg *c06wCfg, maxSteps int, choice func(step, n int) int) (line []int64, chosen, counts []int) {
 	synctest.Test(t, func(t *testing.T) {
 		r := c06wNewRun(t, cfg)
+		c06wCur.Store(r)
+		defer func() { c06wCur.Store(nil); c06wProgress.Add(1) }()
 		synctest.Wait()
 		for step := 0; step < maxSteps; step++ {
 			acts := r.enabled()
@@ -592,6 +631,9 @@ func c06wExecute(t *testing.T, out *verifh.Out, cfg *c06wCfg, maxSteps int, choi
 			k %= len(acts)
 			chosen = append(chosen, k)
 			counts = append(counts, len(acts))
+			r.mu.Lock()
+			r.chosen = append(r.chosen, k)
+			r.mu.Unlock()
 			acts[k]()
 			synctest.Wait()
 		}
@@ -768,11 +810,19 @@ func TestVerifC06Sw(t *testing.T) {
 		t.Fatal(err)
 	}
 	defer out.Close()
+	defer c06wWatchdog(out)()
 	thorough := verifh.Tier() == "thorough"
 	rnd := verifh.NewRand(verifh.Seed() + 77)
 	budget := 150
 	if thorough {
 		budget = 3000
+	}
+	// F0: the table reader versus a Disconnected / Connected handler held on its gate (no second closer anywhere)
+	for m := 0; m < 4; m++ {
+		cfg := &c06wCfg{conns: []c06wConnCfg{{closeIt: true, blockDisc: true, blockConn: m&1 != 0, streams: m >> 1}}}
+		c06wExplore(t, out, cfg, budget, "listing1")
+		cfg2 := &c06wCfg{conns: []c06wConnCfg{{closeIt: true, blockDisc: true}, {peer: m & 1, closeIt: m&2 != 0, blockConn: true}}}
+		c06wExplore(t, out, cfg2, budget, "listing2")
 	}
 	// F1: conn classes: one and two conns to one peer, every pair of classes, all driver schedules
 	for a := 0; a < 4; a++ {
